@@ -571,6 +571,11 @@ def inventory(fn, rule, items, metas, root=None, fixed=None, required=True, orde
     pdefs = {m: v[0] for m, v in targets.items() if len(v) == 1 and m not in stored and m not in (fixed or {})}
     cdefs = fn.cdefs(ordered_add=ordered_add)
     metas = sym.Metas(mnames, pdefs, cdefs)
+    # roles defined by several documented statements (x = f(..); x = g(x)): the code may fuse them into one
+    for m_, v_ in targets.items():
+        if len(v_) > 1 and m_ not in stored and m_ not in (fixed or {}):
+            metas.mdefs[m_] = [(k_, pat_[2]) for k_, (inst_, pat_, src_) in enumerate(pats)
+                               if pat_[0] == 'assign' and len(pat_[1]) == 1 and pat_[1][0] == ('var', m_)]
     # alternative reading of each statement: locals replaced by their unique reaching plain definition
     alt = {}
     import collections as _coll
@@ -674,19 +679,31 @@ def inventory(fn, rule, items, metas, root=None, fixed=None, required=True, orde
         ldefs_cache[id(s_)] = out
         return out
 
+    budget = [0]
+
     def solve(i, binding, matched, skipped):
+        budget[0] += 1
+        if budget[0] > 60000:
+            return False               # search budget exhausted: reported as "no consistent reading found"
         if len(matched) > best['n']:
             best.update(n=len(matched), binding=dict(binding), matched=dict(matched))
         if i == len(pats):
             # a skipped definition must have been met, inlined, inside another documented statement
             for m in skipped:
+                if isinstance(m, tuple) and m[0] == 'fused':
+                    if (m[1], m[2]) not in binding.get('__px__', ()):
+                        return False
+                    continue
                 bm = binding.get(m)
                 if not (isinstance(bm, tuple) and bm and bm[0] == 'expanded'):
                     return False
             best.update(n=len(pats) + 1, binding=dict(binding), matched=dict(matched), skipped=list(skipped), conj=dict(used_conj))
             return True
         inst, pat, src = pats[i]
-        for s, nf in nfs:
+        n_direct = 0
+        # first without, then with the reading "a role with several definitions has one of them written out here"
+        for fused_on, (s, nf) in [(f_, x_) for f_ in ((False, True) if metas.mdefs else (False,)) for x_ in nfs]:
+            metas.mdefs_on = fused_on
             taken = [used_conj.get(k_) for k_, m in matched.items() if m is s]
             if taken and (None in taken or id(s) not in conj):
                 continue
@@ -695,6 +712,7 @@ def inventory(fn, rule, items, metas, root=None, fixed=None, required=True, orde
             if not taken:
                 for cand in ([nf] + alt.get(id(s), [])):
                     for b in sym._unify(pat, cand, binding, metas):
+                        n_direct += 1
                         matched[inst] = s
                         used_conj[inst] = None
                         via_alt[inst] = cand is not nf
@@ -729,6 +747,15 @@ def inventory(fn, rule, items, metas, root=None, fixed=None, required=True, orde
         if pat[0] == 'assign' and len(pat[1]) == 1 and isinstance(pat[1][0], tuple) and pat[1][0][0] == 'var' \
                 and pat[1][0][1] in pdefs and pat[1][0][1] not in binding:
             if solve(i + 1, binding, matched, skipped + [pat[1][0][1]]):
+                return True
+        if n_direct == 0 and pat[0] == 'assign' and len(pat[1]) == 1 and pat[1][0] == pat[2]:
+            # `X = np.array(X)` and the like: a cast the normal form does not see; fused into the definition of X
+            if solve(i + 1, binding, matched, skipped):
+                return True
+        if n_direct == 0 and pat[0] == 'assign' and len(pat[1]) == 1 and isinstance(pat[1][0], tuple) and pat[1][0][0] == 'var' \
+                and pat[1][0][1] in metas.mdefs:
+            # one of several definitions of a role: may be fused into the statement matching another of them
+            if solve(i + 1, binding, matched, skipped + [('fused', pat[1][0][1], i)]):
                 return True
         return False
 
